@@ -2,41 +2,868 @@
 
 package nebula
 
+// C30 — tunnel teardown decisions follow the liveness policy.
+//
+// Engine E2: explicit-state BFS by history replay. Every history is replayed on FRESH real objects: a real
+// connectionManager, HostMap, PKI (NewPKIFromConfig, real CA pool with blocklist), HandshakeManager and a partially
+// assembled Interface (the same way /repo's connection_manager_test.go assembles one) with a recording udp.Conn. Two
+// tunnels to one peer are installed through the real HostMap.unlockedAddHostInfo (a non-primary N, then a primary P)
+// with real AEAD cipher states, so CloseTunnel / Test packets are really encrypted and written. Every configuration
+// change (disconnect_invalid, drop_inactive, blocklist, CA bundle, local certificate) goes through the real
+// config.C.ReloadConfigString -> registered reload callbacks.
+//
+// A check event calls the real doTrafficCheck (effects: hostmap, packets written, pending handshake); for the last
+// event of each history a twin world replays the same prefix and calls the real makeTrafficDecision to observe the
+// decision itself. Both are compared with a decision table transcribed from the statement, evaluated over a boring
+// reference model (flags, times, certificate facts the harness itself configured). Only the implications the statement
+// makes are asserted.
+
 import (
 	"fmt"
+	"net/netip"
+	"sort"
+	"strings"
+	"sync"
 	"testing"
 	"time"
 
+	"github.com/flynn/noise"
+	"github.com/rcrowley/go-metrics"
+	"github.com/slackhq/nebula/cert"
+	"github.com/slackhq/nebula/cert_test"
+	"github.com/slackhq/nebula/config"
+	"github.com/slackhq/nebula/header"
+	"github.com/slackhq/nebula/noiseutil"
+	"github.com/slackhq/nebula/udp"
+	"github.com/slackhq/nebula/zzverif/mc"
 	"github.com/slackhq/nebula/zzverif/vtime"
+	"go.yaml.in/yaml/v3"
 )
 
+const (
+	c30CheckInterval   = 5 * time.Second
+	c30PendingInterval = 10 * time.Second
+	c30Timeout         = 20 * time.Second // tunnels.inactivity_timeout
+	c30ShortLife       = 12 * time.Second // lifetime (after Epoch) of the short-lived peer certificate
+)
+
+// ---------------------------------------------------------------------------------------------------------------
+// material, minted once per process
+
+type c30Cert struct {
+	id       string
+	crt      cert.Certificate
+	pem      string
+	fp, twin string
+	notAfter time.Time
+	ca       string // which CA signed it: "ca1" | "cap"
+}
+
+type c30Material struct {
+	ca1PEM, ca2PEM, capPEM string
+	keyPEM                 string
+	my                     map[string]*c30Cert // v1a v1b v2a v2b: same key, same networks; a/b differ in signature
+	peer                   map[string]*c30Cert
+	suite                  noise.CipherSuite
+}
+
+var c30MatOnce sync.Once
+var c30Mat *c30Material
+
+func c30Sign(v cert.Version, ca cert.Certificate, caKey []byte, curve cert.Curve, name string, pub []byte, nb, na time.Time, nets string) *c30Cert {
+	t := &cert.TBSCertificate{Version: v, Curve: curve, Name: name, Networks: vParsePrefixes(nets), NotBefore: nb, NotAfter: na, PublicKey: pub}
+	c, err := t.Sign(ca, ca.Curve(), caKey)
+	if err != nil {
+		panic(fmt.Sprintf("c30: sign %s: %v", name, err))
+	}
+	p, err := c.MarshalPEM()
+	if err != nil {
+		panic(err)
+	}
+	fp, _ := c.Fingerprint()
+	twin, _ := cert.CalculateAlternateFingerprint(c)
+	return &c30Cert{crt: c, pem: string(p), fp: fp, twin: twin, notAfter: c.NotAfter()}
+}
+
+func c30Material_() *c30Material {
+	c30MatOnce.Do(func() {
+		ep := vtime.Epoch
+		nb, far := ep.Add(-time.Hour), ep.Add(5*365*24*time.Hour)
+		caNb, caFar := ep.Add(-24*time.Hour), ep.Add(10*365*24*time.Hour)
+		ca1, _, ca1Key, ca1PEM := cert_test.NewTestCaCert(cert.Version2, cert.Curve_CURVE25519, caNb, caFar, nil, nil, nil)
+		_, _, _, ca2PEM := cert_test.NewTestCaCert(cert.Version2, cert.Curve_CURVE25519, caNb, caFar, nil, nil, nil)
+		cap_, _, capKey, capPEM := cert_test.NewTestCaCert(cert.Version2, cert.Curve_P256, caNb, caFar, nil, nil, nil)
+		mt := &c30Material{ca1PEM: string(ca1PEM), ca2PEM: string(ca2PEM), capPEM: string(capPEM), my: map[string]*c30Cert{}, peer: map[string]*c30Cert{}}
+		pub, priv := cert_test.X25519Keypair()
+		mt.keyPEM = string(cert.MarshalPrivateKeyToPEM(cert.Curve_CURVE25519, priv))
+		const mine = "10.0.0.5/24"
+		for _, x := range []struct {
+			id string
+			v  cert.Version
+			na time.Time
+		}{{"v1a", cert.Version1, far}, {"v1b", cert.Version1, far.Add(time.Hour)}, {"v2a", cert.Version2, far}, {"v2b", cert.Version2, far.Add(time.Hour)}} {
+			cc := c30Sign(x.v, ca1, ca1Key, cert.Curve_CURVE25519, "me", pub, nb, x.na, mine)
+			cc.id, cc.ca = x.id, "ca1"
+			mt.my[x.id] = cc
+		}
+		ppub, _ := cert_test.X25519Keypair()
+		ppub256, _ := cert_test.P256Keypair()
+		add := func(id string, v cert.Version, ca cert.Certificate, caKey []byte, caID string, curve cert.Curve, pub []byte, na time.Time, nets string) {
+			cc := c30Sign(v, ca, caKey, curve, "peer", pub, nb, na, nets)
+			cc.id, cc.ca = id, caID
+			mt.peer[id] = cc
+		}
+		add("hiLong", cert.Version2, ca1, ca1Key, "ca1", cert.Curve_CURVE25519, ppub, far, "10.0.0.9/24")
+		add("hiShort", cert.Version2, ca1, ca1Key, "ca1", cert.Curve_CURVE25519, ppub, ep.Add(c30ShortLife), "10.0.0.9/24")
+		add("hiV1", cert.Version1, ca1, ca1Key, "ca1", cert.Curve_CURVE25519, ppub, far, "10.0.0.9/24")
+		add("loP256", cert.Version2, cap_, capKey, "cap", cert.Curve_P256, ppub256, far, "10.0.0.2/24")
+		add("loShortP256", cert.Version2, cap_, capKey, "cap", cert.Curve_P256, ppub256, ep.Add(c30ShortLife), "10.0.0.2/24")
+		var err error
+		mt.suite, err = newCipherSuite(cert.Curve_CURVE25519, false, "aes", false)
+		if err != nil {
+			panic(err)
+		}
+		c30Mat = mt
+	})
+	return c30Mat
+}
+
+// ---------------------------------------------------------------------------------------------------------------
+// seeds (start configurations)
+
+type c30Seed struct {
+	name         string
+	local        string    // my certificate bundle ids, "+"-joined
+	tunMy        [2]string // my certificate used by tunnel 0 (P) / 1 (N)
+	tunPeer      [2]string // peer certificate presented on tunnel 0 / 1
+	disc, drop   bool
+	p256         bool // CA bundle also carries the P256 CA; twin blocklisting is in the menu
+	localRenew   string
+	localV2only  string
+}
+
+var c30Seeds = []c30Seed{
+	{name: "hi-long", local: "v1a", tunMy: [2]string{"v1a", "v1a"}, tunPeer: [2]string{"hiLong", "hiLong"}, disc: true, drop: false, localRenew: "v1b", localV2only: "v2a"},
+	{name: "hi-short-idle", local: "v2a", tunMy: [2]string{"v2a", "v2a"}, tunPeer: [2]string{"hiShort", "hiLong"}, disc: false, drop: true, localRenew: "v2b"},
+	{name: "lo-p256", local: "v2a", tunMy: [2]string{"v2a", "v2a"}, tunPeer: [2]string{"loP256", "loShortP256"}, disc: true, drop: true, p256: true, localRenew: "v2b"},
+	{name: "hi-v1v2", local: "v1a+v2a", tunMy: [2]string{"v1a", "v2a"}, tunPeer: [2]string{"hiV1", "hiLong"}, disc: true, drop: false, localRenew: "v1b+v2b", localV2only: "v2a"},
+}
+
+// ---------------------------------------------------------------------------------------------------------------
+// reference model (what the harness itself did; no implementation state)
+
+type c30Tun struct {
+	in, out     bool
+	lastTraffic time.Time // instant of the most recent in/out flag event (true usage)
+	lastSeen    time.Time // instant of the most recent check that observed in||out
+	seenValid   bool
+	probe       bool // a test probe was written for this tunnel and no inbound traffic has been observed since
+	ctr         int  // 0 low, 1 >= rekey threshold, 2 >= reject ceiling
+	my          string
+	peer        *c30Cert
+}
+
+type c30Model struct {
+	disc, drop bool
+	ca         string // good | block | twin | other
+	local      string
+	tun        [2]c30Tun
+}
+
+// ---------------------------------------------------------------------------------------------------------------
+// world of real objects
+
+type c30World struct {
+	seed  *c30Seed
+	mat   *c30Material
+	c     *config.C
+	pki   *PKI
+	hmap  *HostMap
+	cm    *connectionManager
+	hsm   *HandshakeManager
+	lh    *LightHouse
+	conn  *vconn
+	ifce  *Interface
+	tun   [2]*HostInfo
+	peer  netip.Addr
+	now   time.Time
+	md    c30Model
+	nb    []byte
+	out   []byte
+	sawQ  int
+}
+
+var c30YamlCache sync.Map
+
+func (w *c30World) yaml() string {
+	ck := fmt.Sprintf("%s|%v|%v|%s|%s", w.seed.name, w.md.disc, w.md.drop, w.md.ca, w.md.local)
+	if v, ok := c30YamlCache.Load(ck); ok {
+		return v.(string)
+	}
+	y := w.yamlBuild()
+	c30YamlCache.Store(ck, y)
+	return y
+}
+
+func (w *c30World) yamlBuild() string {
+	mt := w.mat
+	bundle := mt.ca1PEM
+	if w.seed.p256 {
+		bundle += mt.capPEM
+	}
+	var bl []string
+	switch w.md.ca {
+	case "block":
+		bl = []string{w.md0Peer().fp}
+	case "twin":
+		bl = []string{w.md0Peer().twin}
+	case "other":
+		bundle = mt.ca2PEM
+	}
+	var certs string
+	for _, id := range strings.Split(w.md.local, "+") {
+		certs += mt.my[id].pem
+	}
+	cfg := m{
+		"pki": m{"ca": bundle, "cert": certs, "key": mt.keyPEM, "disconnect_invalid": w.md.disc, "blocklist": bl},
+		"tunnels": m{"drop_inactive": w.md.drop, "inactivity_timeout": c30Timeout.String()},
+		"timers":  m{"connection_alive_interval": int(c30CheckInterval / time.Second), "pending_deletion_interval": int(c30PendingInterval / time.Second)},
+	}
+	b, err := yaml.Marshal(cfg)
+	if err != nil {
+		panic(err)
+	}
+	return string(b)
+}
+
+// md0Peer: the certificate of the tunnel that started as primary (block/twin events always name that certificate).
+func (w *c30World) md0Peer() *c30Cert { return w.mat.peer[w.seed.tunPeer[0]] }
+
+func c30Build(tb testing.TB, seed *c30Seed) *c30World {
+	mt := c30Material_()
+	l := vNewLogger("c30")
+	w := &c30World{seed: seed, mat: mt, now: vtime.Epoch, nb: make([]byte, 12, 12), out: make([]byte, mtu)}
+	w.md = c30Model{disc: seed.disc, drop: seed.drop, ca: "good", local: seed.local}
+	w.c = config.NewC(l)
+	if err := w.c.LoadString(w.yaml()); err != nil {
+		tb.Fatalf("c30 config: %v", err)
+	}
+	var err error
+	if w.pki, err = NewPKIFromConfig(l, w.c); err != nil {
+		tb.Fatalf("c30 pki: %v", err)
+	}
+	// HostMap and Punchy carry no state the property can observe (preferred_ranges / punchy.* stay at their defaults,
+	// punching off); they are built without their reload callbacks, whose config diffing dominates the replay cost.
+	w.hmap = newHostMap(l)
+	w.conn = &vconn{addr: netip.MustParseAddrPort("192.0.2.5:4242")}
+	punchy := &Punchy{l: l, punchConn: w.conn, metricPunchyTx: metrics.NilCounter{}, metricHolepunchTx: metrics.NilCounter{}}
+	w.cm = newConnectionManagerFromConfig(l, w.c, w.hmap, punchy)
+
+	lh := &LightHouse{l: l, addrMap: map[netip.Addr]*RemoteList{}, queryChan: make(chan netip.Addr, 64)}
+	lighthouses := []netip.Addr{}
+	staticList := map[netip.Addr]struct{}{}
+	lh.localAddrsFn = func(*LocalAllowList) []netip.Addr { return nil }
+	lh.lighthouses.Store(&lighthouses)
+	lh.staticList.Store(&staticList)
+	w.lh = lh
+	punchy.lh = lh
+
+	w.hsm = NewHandshakeManager(l, w.hmap, lh, w.conn, defaultHandshakeConfig)
+	cs := w.pki.getCertState()
+	w.ifce = &Interface{
+		hostMap:           w.hmap,
+		outside:           w.conn,
+		writers:           []udp.Conn{w.conn},
+		firewall:          &Firewall{},
+		lightHouse:        lh,
+		pki:               w.pki,
+		handshakeManager:  w.hsm,
+		connectionManager: w.cm,
+		myVpnAddrs:        cs.myVpnAddrs,
+		myVpnNetworks:     cs.myVpnNetworks,
+		messageMetrics:    newMessageMetricsOnlyRecvError(),
+		l:                 l,
+	}
+	w.c.RegisterReloadCallback(w.ifce.reloadDisconnectInvalid)
+	w.ifce.reloadDisconnectInvalid(w.c)
+	w.cm.intf = w.ifce
+	w.hsm.f = w.ifce
+
+	// two tunnels to one peer: N is added first, then P, which makes P the primary (as a completed re-handshake does)
+	w.peer = mt.peer[seed.tunPeer[0]].crt.Networks()[0].Addr()
+	remote := netip.AddrPortFrom(netip.MustParseAddr("192.0.2.9"), 4242)
+	for _, x := range []int{1, 0} {
+		pc := mt.peer[seed.tunPeer[x]]
+		cached, err := w.pki.GetCAPool().VerifyCertificate(w.now, pc.crt)
+		if err != nil {
+			tb.Fatalf("c30: peer certificate %s does not verify: %v", pc.id, err)
+		}
+		var key [32]byte
+		key[0] = byte(0x30 + x)
+		cst := &ConnectionState{
+			myCert:   mt.my[seed.tunMy[x]].crt,
+			peerCert: cached,
+			eKey:     noiseutil.NewCipherState(noise.UnsafeNewCipherState(mt.suite, key, 0), noiseutil.CipherAESGCM),
+			dKey:     noiseutil.NewCipherState(noise.UnsafeNewCipherState(mt.suite, key, 0), noiseutil.CipherAESGCM),
+			window:   NewBits(ReplayWindow),
+			initiator: true,
+		}
+		cst.messageCounter.Store(2)
+		hi := &HostInfo{
+			ConnectionState: cst,
+			localIndexId:    uint32(1000 + x),
+			remoteIndexId:   uint32(2000 + x),
+			vpnAddrs:        []netip.Addr{w.peer},
+			HandshakePacket: map[uint8][]byte{},
+			relayState:      RelayState{relayForByAddr: map[netip.Addr]*Relay{}, relayForByIdx: map[uint32]*Relay{}},
+		}
+		hi.remote.Store(&remote)
+		w.hmap.Lock()
+		w.hmap.unlockedAddHostInfo(hi, w.ifce)
+		w.hmap.Unlock()
+		w.tun[x] = hi
+		w.md.tun[x] = c30Tun{out: true, lastTraffic: w.now, my: seed.tunMy[x], peer: pc} // unlockedAddHostInfo marks out
+	}
+	w.conn.take()
+	return w
+}
+
+func (w *c30World) drain() {
+	for {
+		select {
+		case <-w.lh.queryChan:
+			w.sawQ++
+		case <-w.hsm.trigger:
+		default:
+			return
+		}
+	}
+}
+
+func (w *c30World) present(x int) bool {
+	w.hmap.RLock()
+	defer w.hmap.RUnlock()
+	return w.hmap.Indexes[w.tun[x].localIndexId] == w.tun[x]
+}
+
+func (w *c30World) primary(x int) bool {
+	w.hmap.RLock()
+	defer w.hmap.RUnlock()
+	return w.hmap.Hosts[w.peer] == w.tun[x]
+}
+
+func (w *c30World) reload(tb testing.TB) {
+	if err := w.c.ReloadConfigString(w.yaml()); err != nil {
+		tb.Fatalf("c30 reload: %v", err)
+	}
+	w.drain()
+}
+
+// ---------------------------------------------------------------------------------------------------------------
+// events
+
+type c30Ev struct {
+	K string // in out check adv advT-1 advT disc drop ca local ctr
+	X int    // tunnel (0 = the initial primary P, 1 = the initial non-primary N)
+	V string
+}
+
+func (e c30Ev) String() string {
+	switch e.K {
+	case "in", "out", "check":
+		return fmt.Sprintf("%s:%s", e.K, [2]string{"P", "N"}[e.X])
+	case "ctr":
+		return fmt.Sprintf("ctr:%s=%s", [2]string{"P", "N"}[e.X], e.V)
+	case "ca", "local", "seed":
+		return e.K + ":" + e.V
+	}
+	return e.K
+}
+
+func (w *c30World) menu() []c30Ev {
+	var evs []c30Ev
+	for x := 0; x < 2; x++ {
+		if !w.present(x) {
+			continue
+		}
+		if !w.md.tun[x].in {
+			evs = append(evs, c30Ev{K: "in", X: x})
+		}
+		if !w.md.tun[x].out {
+			evs = append(evs, c30Ev{K: "out", X: x})
+		}
+		evs = append(evs, c30Ev{K: "check", X: x})
+		if w.md.tun[x].ctr < 1 {
+			evs = append(evs, c30Ev{K: "ctr", X: x, V: "rekey"})
+		}
+		if w.md.tun[x].ctr < 2 {
+			evs = append(evs, c30Ev{K: "ctr", X: x, V: "reject"})
+		}
+	}
+	if !w.present(0) && !w.present(1) {
+		// one check of a vanished tunnel (the "not found" row), nothing else can matter any more
+		return []c30Ev{{K: "check", X: 0}}
+	}
+	evs = append(evs, c30Ev{K: "adv"})
+	for x := 0; x < 2; x++ {
+		if w.present(x) && w.primary(x) && w.md.tun[x].seenValid {
+			if t := w.md.tun[x].lastSeen.Add(c30Timeout - time.Second); t.After(w.now) {
+				evs = append(evs, c30Ev{K: "advT-1"})
+			}
+			if t := w.md.tun[x].lastSeen.Add(c30Timeout); t.After(w.now) {
+				evs = append(evs, c30Ev{K: "advT"})
+			}
+		}
+	}
+	evs = append(evs, c30Ev{K: "disc"}, c30Ev{K: "drop"})
+	for _, s := range []string{"good", "block", "twin", "other"} {
+		if s == w.md.ca || (s == "twin" && !w.seed.p256) {
+			continue
+		}
+		evs = append(evs, c30Ev{K: "ca", V: s})
+	}
+	if w.md.local == w.seed.local {
+		if w.seed.localRenew != "" {
+			evs = append(evs, c30Ev{K: "local", V: w.seed.localRenew})
+		}
+		if w.seed.localV2only != "" {
+			evs = append(evs, c30Ev{K: "local", V: w.seed.localV2only})
+		}
+	}
+	return evs
+}
+
+// c30Obs is what one check event did, as seen from outside the connection manager.
+type c30Obs struct {
+	presentBefore, primaryBefore bool
+	presentAfter                 bool
+	closeSent, testSent          bool
+	hsBefore, hsAfter            bool
+}
+
+// c30Expect is the row of the statement's decision table that applies to one check.
+type c30Expect struct {
+	certClose    bool // blocklisted, or invalid with disconnect_invalid on: must be closed
+	exhausted    bool // counter at the ceiling: must be dropped
+	deadProbe    bool // probe outstanding and no inbound since: must be dropped
+	idleMust     bool // idle primary, drop_inactive on, idle (since the last check that saw traffic) >= timeout: removed
+	idleMay      bool // an idle-close is permitted: primary, no traffic either way, drop_inactive on, true idle >= timeout
+	alive        bool // inbound traffic since the last check: never removed for lack of traffic
+	rehandshake  string // non-empty: a re-handshake must be pending after the check (reason)
+	blocklisted  bool
+	invalid      bool
+}
+
+func (w *c30World) expect(x int, primary bool) c30Expect {
+	t := &w.md.tun[x]
+	var e c30Expect
+	e.blocklisted = (w.md.ca == "block" && t.peer.fp == w.md0Peer().fp) || (w.md.ca == "twin" && t.peer.twin != "" && t.peer.twin == w.md0Peer().twin)
+	caPresent := w.md.ca != "other"
+	e.invalid = w.now.After(t.peer.notAfter) || !caPresent
+	e.certClose = e.blocklisted || (e.invalid && w.md.disc)
+	e.exhausted = t.ctr == 2
+	e.alive = t.in
+	e.deadProbe = t.probe && !t.in
+	idle := primary && !t.in && !t.out
+	e.idleMay = idle && w.md.drop && w.now.Sub(t.lastTraffic) >= c30Timeout
+	e.idleMust = idle && w.md.drop && t.seenValid && w.now.Sub(t.lastSeen) >= c30Timeout
+	if primary && t.in && !e.certClose && !e.exhausted {
+		cur := ""
+		for _, id := range strings.Split(w.md.local, "+") {
+			if id[:2] == t.my[:2] {
+				cur = id
+			}
+		}
+		switch {
+		case cur == "":
+			e.rehandshake = "local certificate of the tunnel's version removed"
+		case cur != t.my:
+			e.rehandshake = "local certificate renewed"
+		case t.ctr >= 1:
+			e.rehandshake = "message counter passed the rekey threshold"
+		}
+	}
+	return e
+}
+
+// apply executes one event on the real objects and the model; check events are judged against the table.
+func (w *c30World) apply(tb testing.TB, c *mc.Check, ev c30Ev, hist func() []string, judge bool) {
+	switch ev.K {
+	case "in":
+		w.cm.In(w.tun[ev.X])
+		w.md.tun[ev.X].in, w.md.tun[ev.X].lastTraffic = true, w.now
+	case "out":
+		w.cm.Out(w.tun[ev.X])
+		w.md.tun[ev.X].out, w.md.tun[ev.X].lastTraffic = true, w.now
+	case "adv":
+		w.now = w.now.Add(c30CheckInterval)
+	case "advT-1", "advT":
+		for x := 0; x < 2; x++ {
+			if w.present(x) && w.primary(x) {
+				d := c30Timeout
+				if ev.K == "advT-1" {
+					d -= time.Second
+				}
+				w.now = w.md.tun[x].lastSeen.Add(d)
+			}
+		}
+	case "disc":
+		w.md.disc = !w.md.disc
+		w.reload(tb)
+		if w.ifce.disconnectInvalid.Load() != w.md.disc {
+			c.Broken("disconnect_invalid reload did not take effect")
+		}
+	case "drop":
+		w.md.drop = !w.md.drop
+		w.reload(tb)
+		if w.cm.dropInactive.Load() != w.md.drop {
+			c.Broken("drop_inactive reload did not take effect")
+		}
+	case "ca":
+		w.md.ca = ev.V
+		old := w.pki.GetCAPool()
+		w.reload(tb)
+		if w.pki.GetCAPool() == old {
+			c.Broken("CA reload %s was refused", ev.V)
+		}
+	case "local":
+		w.md.local = ev.V
+		old := w.pki.getCertState()
+		w.reload(tb)
+		if w.pki.getCertState() == old {
+			c.Broken("local certificate reload %s was refused", ev.V)
+		}
+	case "ctr":
+		// reaching 2^34 sends legitimately is out of reach: the private counter is set on a legitimately built tunnel
+		if ev.V == "rekey" {
+			w.tun[ev.X].ConnectionState.messageCounter.Store(RehandshakeAfterMessages)
+			w.md.tun[ev.X].ctr = 1
+		} else {
+			w.tun[ev.X].ConnectionState.messageCounter.Store(RejectAfterMessages)
+			w.md.tun[ev.X].ctr = 2
+		}
+	case "check":
+		w.check(c, ev.X, hist, judge)
+	default:
+		tb.Fatalf("c30: unknown event %v", ev)
+	}
+}
+
+func (w *c30World) check(c *mc.Check, x int, hist func() []string, judge bool) {
+	h := w.tun[x]
+	var o c30Obs
+	o.presentBefore, o.primaryBefore = w.present(x), w.primary(x)
+	o.hsBefore = w.hsm.QueryVpnAddr(w.peer) != nil
+	w.conn.take()
+	exp := w.expect(x, o.primaryBefore)
+	w.cm.doTrafficCheck(h.localIndexId, []byte(""), w.nb, w.out, w.now)
+	w.drain()
+	for _, p := range w.conn.take() {
+		var hd header.H
+		if len(p.Data) < header.Len || hd.Parse(p.Data) != nil || hd.RemoteIndex != h.remoteIndexId {
+			continue
+		}
+		if hd.Type == header.CloseTunnel {
+			o.closeSent = true
+		}
+		if hd.Type == header.Test && hd.Subtype == header.TestRequest {
+			o.testSent = true
+		}
+	}
+	o.presentAfter = w.present(x)
+	o.hsAfter = w.hsm.QueryVpnAddr(w.peer) != nil
+	t := &w.md.tun[x]
+	if !o.presentBefore {
+		c.Add("checks_of_vanished_tunnel", 1)
+		if o.presentAfter || o.closeSent || o.testSent {
+			c.Violation("check of a vanished tunnel has effects", m{"history": hist(), "obs": fmt.Sprintf("%+v", o)})
+		}
+		return
+	}
+	role := "non-primary"
+	if o.primaryBefore {
+		role = "primary"
+	}
+	if judge {
+		c30Judge(c, role, exp, o, hist)
+	}
+	// model update (flags are consumed by the check)
+	if t.in || t.out {
+		t.lastSeen, t.seenValid = w.now, true
+	}
+	if t.in {
+		t.probe = false
+	}
+	if o.testSent {
+		t.probe = true
+	}
+	t.in, t.out = false, false
+	if o.testSent {
+		// the probe itself is outbound traffic on this tunnel
+		t.out, t.lastTraffic = true, w.now
+	}
+}
+
+func c30Judge(c *mc.Check, role string, e c30Expect, o c30Obs, hist func() []string) {
+	det := func() any {
+		return m{"history": hist(), "role": role, "expect": fmt.Sprintf("%+v", e), "observed": fmt.Sprintf("%+v", o)}
+	}
+	removed := !o.presentAfter
+	switch {
+	case e.certClose:
+		c.Add("row_cert_close", 1)
+		if e.blocklisted {
+			c.Add("row_blocklisted", 1)
+		} else {
+			c.Add("row_invalid_disconnect", 1)
+		}
+		if !removed {
+			if e.blocklisted {
+				c.Violation("tunnel with a blocklisted peer certificate survives the check ("+role+")", det())
+			} else {
+				c.Violation("tunnel with an invalid peer certificate survives the check although disconnect_invalid is on ("+role+")", det())
+			}
+		} else if !e.exhausted && !o.closeSent {
+			c.Violation("certificate teardown does not notify the peer (no CloseTunnel written) ("+role+")", det())
+		}
+		return
+	case e.exhausted:
+		c.Add("row_exhausted", 1)
+		if !removed {
+			c.Violation("tunnel with an exhausted message counter survives the check ("+role+")", det())
+		}
+		return
+	}
+	if e.invalid {
+		c.Add("row_invalid_kept_open_allowed", 1)
+	}
+	if e.alive {
+		c.Add("row_alive", 1)
+		if removed {
+			c.Violation("tunnel that received traffic since the last check is removed ("+role+")", det())
+		}
+	}
+	if e.deadProbe {
+		c.Add("row_dead_probe", 1)
+		if !removed {
+			c.Violation("probed tunnel without inbound traffic survives the check ("+role+")", det())
+		}
+	}
+	if e.idleMust {
+		c.Add("row_idle_must", 1)
+		if !removed {
+			c.Violation("idle primary tunnel past the inactivity timeout survives the check with drop_inactive on", det())
+		}
+	}
+	if o.closeSent && role == "primary" {
+		// closed (peer notified) with no certificate/counter reason: only inactivity can justify it
+		c.Add("row_idle_close_observed", 1)
+		if !e.idleMay {
+			c.Violation("primary tunnel closed for inactivity outside the policy (drop_inactive off, traffic seen, or idle < timeout)", det())
+		}
+	}
+	if e.rehandshake != "" && o.presentAfter {
+		c.Add("row_rehandshake", 1)
+		c.Distinct("rehandshake_reasons", e.rehandshake)
+		if !o.hsAfter {
+			c.Violation("no re-handshake started: "+e.rehandshake, det())
+		}
+	}
+}
+
+// ---------------------------------------------------------------------------------------------------------------
+// canonical state
+
+func (w *c30World) key() string {
+	var sb strings.Builder
+	fmt.Fprintf(&sb, "%s|%v%v|%s|%s|hs=%v", w.seed.name, w.md.disc, w.md.drop, w.md.ca, w.md.local, w.hsm.QueryVpnAddr(w.peer) != nil)
+	capd := func(d time.Duration) int {
+		if d > c30Timeout+c30CheckInterval {
+			d = c30Timeout + c30CheckInterval
+		}
+		return int(d / time.Second)
+	}
+	for x := 0; x < 2; x++ {
+		if !w.present(x) {
+			sb.WriteString("|gone")
+			continue
+		}
+		h, t := w.tun[x], &w.md.tun[x]
+		rem := t.peer.notAfter.Sub(w.now)
+		remS := "far"
+		if rem < time.Hour {
+			remS = fmt.Sprint(int(rem / time.Second))
+			if rem < 0 {
+				remS = "expired"
+			}
+		}
+		seen := -1
+		if t.seenValid {
+			seen = capd(w.now.Sub(t.lastSeen))
+		}
+		lu := -1
+		if !h.lastUsed.IsZero() {
+			lu = capd(w.now.Sub(h.lastUsed))
+		}
+		ctr := h.ConnectionState.messageCounter.Load()
+		cc := 0
+		if ctr >= RejectAfterMessages {
+			cc = 2
+		} else if ctr >= RehandshakeAfterMessages {
+			cc = 1
+		}
+		fmt.Fprintf(&sb, "|prim=%v in=%v out=%v pd=%v lu=%d | m: in=%v out=%v tr=%d seen=%d probe=%v ctr=%d/%d exp=%s",
+			w.primary(x), h.in.Load(), h.out.Load(), h.pendingDeletion.Load(), lu,
+			t.in, t.out, capd(w.now.Sub(t.lastTraffic)), seen, t.probe, t.ctr, cc, remS)
+	}
+	return sb.String()
+}
+
+// ---------------------------------------------------------------------------------------------------------------
+
+var c30DecisionNames = map[trafficDecision]string{doNothing: "doNothing", deleteTunnel: "deleteTunnel", closeTunnel: "closeTunnel",
+	swapPrimary: "swapPrimary", migrateRelays: "migrateRelays", tryRehandshake: "tryRehandshake", sendTestPacket: "sendTestPacket"}
+
 func TestVerifC30(t *testing.T) {
-	t0 := time.Now()
-	for i := 0; i < 50; i++ {
-		net := vNewNet(t, 1, vnodeSpec{Name: "a", Networks: "10.0.0.1/24", Udp: "192.0.2.1:4242"})
-		net.close()
+	c := mc.Begin(t, "C30", "model_checking")
+	defer c.End()
+	c30Material_()
+	depth := mc.Pick(c, 4, 6)
+	c.Set("bfs_depth", depth)
+	c.Set("seed_configurations", len(c30Seeds))
+	c.Assume("A check is one call of the real doTrafficCheck for one tunnel at a harness-chosen instant; the timer wheel that schedules the calls is not part of the statement (C33 covers it).")
+	c.Assume("'Closed' is read as closeTunnel (removed + CloseTunnel written), 'dropped' as removed; when several clauses apply (blocklisted and exhausted) only removal is demanded.")
+	c.Assume("Idle time for 'closed only when idle >= timeout' is the true idle time (since the last traffic flag); the converse 'idle primary past the timeout is removed when drop_inactive is on' is asserted with idle measured from the last check that observed traffic (the implementation's own, shorter, measure) — 'at least the timeout' is read as the boundary of the policy.")
+	c.Assume("Re-handshake is demanded only on a check of the primary tunnel that showed inbound traffic and is not torn down; the statement does not say at which check an idle tunnel should re-handshake (weaker reading).")
+	c.Assume("disconnect_invalid off: the statement is silent; nothing is asserted about an invalid, non-blocklisted certificate beyond the traffic clauses.")
+	c.Assume("Message counters at 2^34 / the reject ceiling are stored into the private counter of a legitimately installed tunnel; tunnels are installed through HostMap.unlockedAddHostInfo with real cipher states rather than by a Noise handshake.")
+
+	var decMu sync.Mutex
+	decisions := map[string]int64{}
+	decByRole := map[string]int64{}
+
+	seedByName := map[string]*c30Seed{}
+	var root []c30Ev
+	for si := range c30Seeds {
+		seedByName[c30Seeds[si].name] = &c30Seeds[si]
+		root = append(root, c30Ev{K: "seed", V: c30Seeds[si].name})
 	}
-	fmt.Println("one node:", time.Since(t0)/50)
-	t0 = time.Now()
-	for i := 0; i < 20; i++ {
-		net := vNewNet(t, 1, vnodeSpec{Name: "a", Networks: "10.0.0.1/24", Udp: "192.0.2.1:4242", Overrides: m{"static_host_map": m{"10.0.0.2": []string{"192.0.2.2:4242"}}}}, vnodeSpec{Name: "b", Networks: "10.0.0.2/24", Udp: "192.0.2.2:4242", Overrides: m{"static_host_map": m{"10.0.0.1": []string{"192.0.2.1:4242"}}}})
-		a, b := net.node("a"), net.node("b")
-		if !net.establish(a, b, "x") {
-			t.Fatal("no establish")
+	run := func(full []c30Ev) (string, []c30Ev) {
+		if len(full) == 0 {
+			return "root", root // the first event picks the start configuration: all seeds advance level by level together
 		}
-		a.hm.StartHandshake(b.vpnIP, nil)
-		a.settle()
-		net.collect()
-		net.flushFIFO(50)
-		vtime.Advance(100 * vtime.Millisecond)
-		a.hsTick()
-		net.collect()
-		net.flushFIFO(50)
-		if i == 0 {
-			fmt.Println(a.tunnels())
-			fmt.Println(b.tunnels())
+		seed, hist := seedByName[full[0].V], full[1:]
+		labels := func() []string {
+			out := []string{"seed=" + seed.name}
+			for _, e := range hist {
+				out = append(out, e.String())
+			}
+			return out
 		}
-		net.close()
+		w := c30Build(t, seed)
+		for i, ev := range hist {
+			w.apply(t, c, ev, labels, i == len(hist)-1)
+		}
+		if n := len(hist); n > 0 && hist[n-1].K == "check" {
+			// twin world: same prefix, then the real makeTrafficDecision is called directly to observe the decision
+			w1 := c30Build(t, seed)
+			for _, ev := range hist[:n-1] {
+				w1.apply(t, c, ev, labels, false)
+			}
+			x := hist[n-1].X
+			if w1.present(x) {
+				prim := w1.primary(x)
+				exp := w1.expect(x, prim)
+				dec, hi, _ := w1.cm.makeTrafficDecision(w1.tun[x].localIndexId, w1.now)
+				w1.drain()
+				name := c30DecisionNames[dec]
+				role := "non-primary"
+				if prim {
+					role = "primary"
+				}
+				decMu.Lock()
+				decisions[name]++
+				decByRole[role+"/"+name]++
+				decMu.Unlock()
+				c30JudgeDecision(c, role, exp, dec, hi == w1.tun[x], labels)
+			}
+		}
+		return w.key(), w.menu()
 	}
-	fmt.Println("two nodes + 2 handshakes:", time.Since(t0)/20)
+	// quick: fixed depth, no time stop (the box is sized for a few seconds on an idle 16-core machine, and the vacuity
+	// guards below need all of it); thorough: deeper, whole levels until the soft budget runs out.
+	var stop func() bool
+	if c.Thorough() {
+		stop = c.OutOfTime
+	}
+	res := mc.BFSReplay(c, mc.BFSConfig[c30Ev]{
+		MaxDepth: depth + 1,
+		Run:      run,
+		Label:    func(e c30Ev) string { return e.String() },
+		Stop:     stop,
+	})
+	c.Set("bfs", fmt.Sprintf("states=%d transitions=%d depth=%d(+1 for the seed choice) frontier_emptied=%v", res.States, res.Transitions, res.MaxDepth-1, res.Exhaustive))
+
+	var names []string
+	for k, v := range decisions {
+		names = append(names, fmt.Sprintf("%s=%d", k, v))
+	}
+	sort.Strings(names)
+	c.Set("decisions_observed", names)
+	var roles []string
+	for k, v := range decByRole {
+		roles = append(roles, fmt.Sprintf("%s=%d", k, v))
+	}
+	sort.Strings(roles)
+	c.Set("decisions_by_role", roles)
+	c.Set("distinct_outcomes", len(decByRole))
+
+	if c.Violations() == 0 {
+		for _, n := range c30DecisionNames {
+			c.Require(decisions[n] > 0, "decision %s never reached", n)
+		}
+		for _, row := range []string{"row_blocklisted", "row_invalid_disconnect", "row_exhausted", "row_alive", "row_dead_probe", "row_idle_must", "row_idle_close_observed", "row_rehandshake", "row_invalid_kept_open_allowed"} {
+			c.Require(c.Counter(row).Load() > 0, "decision-table %s never applied", row)
+		}
+		c.Require(c.DistinctCount("rehandshake_reasons") == 3, "re-handshake reasons reached: %d of 3", c.DistinctCount("rehandshake_reasons"))
+		c.Require(len(decByRole) >= 9, "only %d (role, decision) outcomes", len(decByRole))
+	}
+}
+
+// c30JudgeDecision compares the value returned by makeTrafficDecision with the table row.
+func c30JudgeDecision(c *mc.Check, role string, e c30Expect, dec trafficDecision, sameHost bool, hist func() []string) {
+	det := func() any {
+		return m{"history": hist(), "role": role, "expect": fmt.Sprintf("%+v", e), "decision": c30DecisionNames[dec]}
+	}
+	removes := dec == closeTunnel || dec == deleteTunnel
+	if removes && !sameHost {
+		c.Violation("makeTrafficDecision removes a different hostinfo than the one checked", det())
+	}
+	switch {
+	case e.certClose:
+		if dec != closeTunnel && !(e.exhausted && dec == deleteTunnel) {
+			c.Violation("decision for a blocklisted/invalid peer certificate is not closeTunnel ("+role+")", det())
+		}
+		return
+	case e.exhausted:
+		if !removes {
+			c.Violation("decision for an exhausted message counter does not remove the tunnel ("+role+")", det())
+		}
+		return
+	}
+	if e.alive && removes {
+		c.Violation("decision removes a tunnel that received traffic since the last check ("+role+")", det())
+	}
+	if e.deadProbe && !removes {
+		c.Violation("decision keeps a probed tunnel without inbound traffic ("+role+")", det())
+	}
+	if e.idleMust && !removes {
+		c.Violation("decision keeps an idle primary tunnel past the inactivity timeout with drop_inactive on", det())
+	}
+	if dec == closeTunnel && role == "primary" && !e.idleMay {
+		c.Violation("decision closeTunnel for inactivity outside the policy (drop_inactive off, traffic seen, or idle < timeout)", det())
+	}
+	if e.rehandshake != "" && dec != tryRehandshake {
+		c.Violation("decision is not tryRehandshake: "+e.rehandshake, det())
+	}
 }
